@@ -138,6 +138,15 @@ func verifyCompact(tok string, detached []byte, pub crypto.PublicKey) bool {
 
 // verifyLD verifies the linked-data proof of doc with one key (canonicalisation by the node's JSON-LD suite; the key is the harness' choice).
 func verifyLD(loader ld.DocumentLoader, doc map[string]any, pub crypto.PublicKey) error {
+	if arr, ok := doc["proof"].([]any); ok && len(arr) == 1 {
+		// a one-element proof set is the same as the proof itself (the node's typed marshalling writes it that way too)
+		cp := map[string]any{}
+		for k, v := range doc {
+			cp[k] = v
+		}
+		cp["proof"] = arr[0]
+		doc = cp
+	}
 	signed, err := proof.NewSignedDocument(doc)
 	if err != nil {
 		return err
